@@ -5,6 +5,7 @@ package ledgerstore
 
 import (
 	"github.com/polynetwork/poly/common"
+	scom "github.com/polynetwork/poly/core/store/common"
 	"github.com/polynetwork/poly/core/types"
 )
 
@@ -60,7 +61,11 @@ func (this *LedgerStoreImp) VerifStateTree() (memSize uint32, memRoot common.Uin
 
 // VerifStorageRaw reads a raw key of the state store (nil, nil when absent).
 func (this *LedgerStoreImp) VerifStorageRaw(key []byte) ([]byte, error) {
-	return this.stateStore.NewOverlayDB().Get(key)
+	v, err := this.stateStore.store.Get(key)
+	if err == scom.ErrNotFound {
+		return nil, nil
+	}
+	return v, err
 }
 
 // VerifPeerInfo returns copies of the validator sets tracked for headers and for blocks.
